@@ -123,37 +123,35 @@ pub(crate) fn remove_or_compress_too_old_logfiles_impl(
             #[cfg(feature = "compress")]
             {
                 // compress, if not yet compressed
-                if let Some(extension) = file.extension() {
-                    if extension != "gz" {
-                        let mut compressed_file = file.clone();
-                        match compressed_file.extension() {
-                            Some(oss) => {
-                                let mut oss_gz = oss.to_os_string();
-                                oss_gz.push(".gz");
-                                compressed_file.set_extension(oss_gz.as_os_str());
-                            }
-                            None => {
-                                compressed_file.set_extension("gz");
-                            }
+                if !file.extension().is_some_and(|extension| extension == "gz") {
+                    let mut compressed_file = file.clone();
+                    match compressed_file.extension() {
+                        Some(oss) => {
+                            let mut oss_gz = oss.to_os_string();
+                            oss_gz.push(".gz");
+                            compressed_file.set_extension(oss_gz.as_os_str());
                         }
-
-                        #[cfg(flexi_logger_verif)]
-                        crate::verif_hooks::point("fs:gz_create", Some(&compressed_file))?;
-                        let mut gz_encoder = flate2::write::GzEncoder::new(
-                            File::create(compressed_file)?,
-                            flate2::Compression::fast(),
-                        );
-                        let mut old_file = File::open(file.clone())?;
-                        #[cfg(flexi_logger_verif)]
-                        crate::verif_hooks::point("fs:gz_copy", Some(&file))?;
-                        std::io::copy(&mut old_file, &mut gz_encoder)?;
-                        #[cfg(flexi_logger_verif)]
-                        crate::verif_hooks::point("fs:gz_finish", Some(&file))?;
-                        gz_encoder.finish()?;
-                        #[cfg(flexi_logger_verif)]
-                        crate::verif_hooks::point("fs:remove_orig", Some(&file))?;
-                        std::fs::remove_file(&file)?;
+                        None => {
+                            compressed_file.set_extension("gz");
+                        }
                     }
+
+                    #[cfg(flexi_logger_verif)]
+                    crate::verif_hooks::point("fs:gz_create", Some(&compressed_file))?;
+                    let mut gz_encoder = flate2::write::GzEncoder::new(
+                        File::create(compressed_file)?,
+                        flate2::Compression::fast(),
+                    );
+                    let mut old_file = File::open(file.clone())?;
+                    #[cfg(flexi_logger_verif)]
+                    crate::verif_hooks::point("fs:gz_copy", Some(&file))?;
+                    std::io::copy(&mut old_file, &mut gz_encoder)?;
+                    #[cfg(flexi_logger_verif)]
+                    crate::verif_hooks::point("fs:gz_finish", Some(&file))?;
+                    gz_encoder.finish()?;
+                    #[cfg(flexi_logger_verif)]
+                    crate::verif_hooks::point("fs:remove_orig", Some(&file))?;
+                    std::fs::remove_file(&file)?;
                 }
             }
         }
